@@ -165,11 +165,22 @@ func run(seed int64, n int, dir string, _ []string) {
 		pr.SetCPU([]int{1, 2, 4, 8}[g.Intn(4)])
 		// ORDER BY items
 		nitems := g.Intn(ncols) + 1
-		itemToks, itemSQL := make([]string, nitems), make([]string, nitems)
 		perm := g.Perm(ncols)
+		colIdx := append([]int{}, perm[:nitems]...)
+		// a column may be listed more than once (also next to a later key with another direction / NULLS position)
+		if t > 0 && g.Intn(3) == 0 {
+			at := 1 + g.Intn(len(colIdx))
+			rep := colIdx[g.Intn(at)]
+			colIdx = append(colIdx[:at], append([]int{rep}, colIdx[at:]...)...)
+			if g.Intn(3) == 0 {
+				colIdx = append(colIdx, colIdx[g.Intn(len(colIdx))])
+			}
+			nitems = len(colIdx)
+		}
+		itemToks, itemSQL := make([]string, nitems), make([]string, nitems)
 		for k := 0; k < nitems; k++ {
 			d, np := g.Pick("a", "d", "A"), g.Pick("-", "f", "l")
-			sql := cols[perm[k]]
+			sql := cols[colIdx[k]]
 			switch d {
 			case "a":
 				sql += " ASC"
@@ -191,7 +202,7 @@ func run(seed int64, n int, dir string, _ []string) {
 			s := make([]string, 0, nitems+1)
 			s = append(s, strconv.Itoa(id))
 			for k := 0; k < nitems; k++ {
-				s = append(s, cellTok(rows[id][perm[k]]))
+				s = append(s, cellTok(rows[id][colIdx[k]]))
 			}
 			return strings.Join(s, " ")
 		}
